@@ -122,7 +122,8 @@ def _parrays():
     import numpy as np
     return {"nested list of ints and floats": [[0, 0.5, 1]], "nested list of ints": [[1, 2, 3]], "tuple of rows": ((1.5, 2.5), (3.5, 4.0)), "list with complex": [[1j, 2, 0.5]],
             "int32 array": np.array([[1, 2]], dtype=np.int32), "float32 array": np.array([[0.5, 1.5]], dtype=np.float32), "complex64 array": np.array([[0.5 + 1j, 2]], dtype=np.complex64),
-            "list of float then ints": [[0.5, 1, 2], [3, 4, 5]], "transposed view": np.arange(6).reshape(3, 2).T * 0.5}
+            "list of float then ints": [[0.5, 1, 2], [3, 4, 5]], "transposed view": np.arange(6).reshape(3, 2).T * 0.5,
+            "a row of 1001 floats": np.arange(1001).reshape(1, 1001) * 0.5, "1200 rows of ints": np.arange(2400).reshape(1200, 2)}
 
 
 def parray_case(name):
